@@ -33,11 +33,14 @@ type st = {
   mutable lj2 : (lj * lj * float * float) option;
   mutable nomodel : bool;
   mutable ord : (float option array * string * string * string * string * string) option;
+  mutable ljm : (float * float) option;
+  mutable mola : lj list;
+  mutable molb : lj list;
 }
 
 let fresh () = { spec = ""; syms = []; site = None; cell = None; kind = '?'; segs = []; discs = []; ljs = [];
                  radius = 0.; area = 0.; rel = []; cart = []; img_hdr = None; imgs = []; score = None;
-                 carea = None; minsep = nan; pair = None; lj2 = None; nomodel = false; ord = None }
+                 carea = None; minsep = nan; pair = None; lj2 = None; nomodel = false; ord = None; ljm = None; mola = []; molb = [] }
 
 let tf_of_arr (a : float array) : tf =
   { a00 = f2c a.(0); a01 = f2c a.(1); a02 = f2c a.(2); a10 = f2c a.(3); a11 = f2c a.(4); a12 = f2c a.(5);
@@ -73,6 +76,24 @@ let run_case (c : st) : string =
   let strength = ref 0 in
   let band = ref 0 in
   let upd k = if k > !strength then strength := k in
+  (* C13: the energy of two different molecules, both ways, against the model's ljshape_energy *)
+  (match c.ljm with
+   | Some (eab, eba) ->
+       let terms (la : lj list) (lb : lj list) : float =
+         List.fold_left (fun acc (p : lj) -> List.fold_left (fun acc2 (q : lj) ->
+           let sg = c2f p.lsigma and ep = Float.abs (c2f p.leps) in
+           let r2 = (c2f p.lx -. c2f q.lx) ** 2. +. (c2f p.ly -. c2f q.ly) ** 2. in
+           let x = (sg *. sg /. r2) ** 3. in
+           let sh = match p.lcut with Some cc -> (sg /. c2f cc) ** 12. +. (sg /. c2f cc) ** 6. | None -> 0. in
+           acc2 +. 4. *. ep *. (x *. x +. x +. sh)) acc lb) 0. la in
+       let chk name m i scale =
+         let m = c2f m in
+         if same m i || (Float.is_nan m && Float.is_nan i) then ()
+         else if Float.abs (m -. i) <= 1e-12 *. (1. +. Float.abs i +. scale) then upd 1
+         else note (Printf.sprintf "%s: model %h (%g) impl %h (%g)" name m m i i) in
+       chk "molecule energy(a,b)" (ljshape_energy numF powi c.mola c.molb) eab (terms c.mola c.molb);
+       chk "molecule energy(b,a)" (ljshape_energy numF powi c.molb c.mola) eba (terms c.molb c.mola)
+   | None -> ());
   (* C09 / C10: the order on states against the model's score_cmp / score_eq / max (Pipeline.v) *)
   (match c.ord with
    | Some (sc, cmps, eqs, left, right, iter) ->
@@ -131,7 +152,7 @@ let run_case (c : st) : string =
            else note (Printf.sprintf "%s: model %b, implementation %s (oracle separation %e)" name m i sep)
          end in
        chk "intersects(a,b)" m_ab ab; chk "intersects(b,a)" m_ba ba
-   | None when c.ord <> None -> ()
+   | None when c.ord <> None || c.ljm <> None -> ()
    | None ->
        let site = match c.site with Some s -> s | None -> failwith "no site" in
        let cell = match c.cell with Some s -> s | None -> failwith "no cell" in
@@ -319,6 +340,10 @@ let main (path : string) : unit =
                             float_of_hex eab, float_of_hex eba)
          | 'O', [_; a; b; cc; cmps; eqs; left; right; iter] ->
              c.ord <- Some ([| opt_float_of_tok a; opt_float_of_tok b; opt_float_of_tok cc |], cmps, eqs, left, right, iter)
+         | 'W', [_; _; _; eab; eba] -> c.ljm <- Some (float_of_hex eab, float_of_hex eba)
+         | ('A' | 'B'), [_; x; y; sg; ep; cut] ->
+             let p = { lx = h x; ly = h y; lsigma = h sg; leps = h ep; lcut = Option.map f2c (opt_float_of_tok cut) } in
+             if l.[0] = 'A' then c.mola <- c.mola @ [ p ] else c.molb <- c.molb @ [ p ]
          | 'N', _ -> c.nomodel <- true
          | 'E', _ ->
              let r = if c.nomodel then "OK strength=bit band=0 nomodel" else (try run_case c with e -> "MISMATCH exception " ^ Printexc.to_string e) in
